@@ -680,6 +680,10 @@ func c17Random(r *Rng) C17Case {
 			}
 		}
 	}
+	if r.Chance(12) {
+		// an explicit empty list of media types at the top says no more than its absence
+		doc["consumes"] = []any{}
+	}
 	var defNames []string
 	defs := map[string]any{}
 	for _, n := range []string{"Pet", "Tag", "Err"} {
